@@ -637,7 +637,9 @@ impl DefaultFunction {
                 let arg1 = args[0].unwrap_byte_string()?;
                 let arg2 = args[1].unwrap_integer()?;
 
-                let index: i128 = arg2.try_into().unwrap();
+                let Ok(index) = i128::try_from(arg2) else {
+                    return Err(Error::ByteStringOutOfBounds(arg2.clone(), arg1.to_vec()));
+                };
 
                 if 0 <= index && index < arg1.len() as i128 {
                     let ret = arg1[index as usize];
